@@ -126,7 +126,7 @@ class ShardStats:
         self.evaluations += 1
         for l in out.labels:
             self.labels[l] += 1
-        for k in out.known:
+        for k in sorted(set(out.known)):      # findings are counted once per case
             self.known[k] += 1
             if k in CAPPED and len(self.capped_cases) < 8:
                 self.capped_cases.append(dict(finding=k, case=case, note=out.detail))
